@@ -26,6 +26,10 @@ def _scrub(events):
     for e in events:
         if e[0] == "SU":
             out.append(e[:4])
+        elif e[0] == "II" and len(e) > 6:
+            out.append(e[:6] + ((e[6][0], e[6][2]) if e[6] else None,))
+        elif e[0] == "IO" and len(e) > 3:
+            out.append(e[:3])
         else:
             out.append(e)
     return out
